@@ -121,7 +121,31 @@ fn corpus_requests() -> Vec<String> {
 /// destinations whose text is not in normal form (each names the file /a/b or /b)
 const ODD_DESTS: &[&str] = &["//b", "/a//b", "/a/./b", "/a/b/", "./a//b", ".//b", "/a/b/.", "//a///b//", "/./b", "./a/./b"];
 
+/// rpm-rs without bzip2 support: every compression type must either be refused or produce a valid package
+/// whose payload really is what the header names (request token `feat=nobz` tells the driver's model that
+/// bzip2 is refused)
+fn gen_nobz(ctx: &mut Ctx) {
+    let (si, sn) = ctx.shard;
+    let sizes = [0usize, 1, 3, 4, 100, 1000];
+    let comps = ["none", "gzip:6", "gzip:1", "zstd:3", "zstd:19", "xz:6", "xz:0", "bzip2:9", "bzip2:1", "bzip2:5"];
+    let n = ctx.q(60u64, 300);
+    for i in 0..n {
+        let cfg = crate::c06::gen_cfg(&mut ctx.rng, &sizes);
+        // replace the compression token by the i-th of the list
+        let mut toks: Vec<String> = cfg.split(' ').filter(|t| !t.starts_with("c=")).map(|t| t.to_string()).collect();
+        toks.push(format!("c={}", comps[(i % comps.len() as u64) as usize]));
+        toks.push("feat=nobz".into());
+        if i % 7 == 3 { toks.push("sign=E".into()); }
+        if i % sn == si {
+            ctx.req(&format!("valid {}", toks.join(" ")));
+        }
+    }
+}
+
 pub fn gen(ctx: &mut Ctx) {
+    if ctx.variant == "nobz" {
+        return gen_nobz(ctx);
+    }
     let (si, sn) = ctx.shard;
     if si == 0 {
         // past witnesses first
